@@ -20,6 +20,7 @@ FUNCTIONS = ['emd.spectra.holospectrum', 'emd.support.ensure_2d (inlined)', 'emd
 ASSUMPTIONS = [
     'floats are mathematical reals; numpy ints unbounded',
     'assumed numpy contracts (cross-checked natively, not proved): digitize (increasing bins), broadcast_to, arange, reshape in C order, slicing',
+    'arrays are mathematical maps from indices to values: memory layout (C / Fortran / views) is not modelled - bounded stand-in only',
     'assumed scipy contract: coo_matrix sums duplicates; toarray() / sum(axis=0) / mean(axis=0) are the dense form / column sums / column means of that matrix (modelled by uninterpreted DENSE, COLSUM with mean = COLSUM/T)',
     'M and K enumerated concretely (1..2); T and the numbers of bins symbolic',
 ]
@@ -174,6 +175,20 @@ def brute(infr, infr2, inam2, e1, e2, mode):
     return out
 
 
+def _layout(x, how):
+    """the same values in another memory layout (the spectrum is a function of the values only)"""
+    x = np.asarray(x, float)
+    if how == 'F':
+        return np.asfortranarray(x.copy())
+    if how == 'moveaxis' and x.ndim >= 2:           # stored with the last axis first, viewed in the documented order
+        return np.moveaxis(np.ascontiguousarray(np.moveaxis(x, -1, 0)), 0, -1)
+    if how == 'strided':
+        big = np.full(tuple(2 * n for n in x.shape), -7.0)
+        big[tuple(slice(None, None, 2) for _ in x.shape)] = x
+        return big[tuple(slice(None, None, 2) for _ in x.shape)]
+    return x.copy()
+
+
 def replay(w):
     import emd.spectra as ES
     if w.get('kind') != 'holo':
@@ -181,10 +196,11 @@ def replay(w):
     f1, f2, a2 = np.array(w['infr'], float), np.array(w['infr2'], float), np.array(w['inam2'], float)
     e1, e2 = np.array(w['edges1'], float), np.array(w['edges2'], float)
     full = brute(f1, f2, a2, e1, e2, w['mode'])
+    lay = w.get('layout', 'C')
     msgs = []
     for sq, exp in ((False, full), ('sum', full.sum(axis=0)), ('mean', full.mean(axis=0))):
         try:
-            got = ES.holospectrum(f1.copy(), f2.copy(), a2.copy(), e1, e2, mode=w['mode'], squash_time=sq)
+            got = ES.holospectrum(_layout(f1, lay), _layout(f2, lay), _layout(a2, lay), e1, e2, mode=w['mode'], squash_time=sq)
         except Exception as ex:
             msgs.append('squash_time=%r raised %s: %s' % (sq, type(ex).__name__, ex))
             continue
@@ -222,7 +238,7 @@ def refute(tier, seed, emit):
                     return
     r = rng(seed, 11)
     nr = 20 if tier == 'quick' else 200
-    emit.scope('%d seeded random arrays [T 3..60 x M 1..3 x K 1..3] around independent linear/log bin sets' % nr)
+    emit.scope('%d seeded random arrays [T 3..60 x M 1..3 x K 1..3] around independent linear/log bin sets, in C / Fortran / moved-axis / strided memory layouts' % nr)
     import emd.spectra as ES
     for q in range(nr):
         Tn, M, K = int(r.randint(3, 60)), int(r.randint(1, 4)), int(r.randint(1, 4))
@@ -234,9 +250,10 @@ def refute(tier, seed, emit):
         f2[r.rand(Tn, M, K) < 0.1] = r.choice(e2)
         a2 = r.rand(Tn, M, K) + 0.1
         emit.case(('rand', q), contract='holospectrum')
-        w = {'kind': 'holo', 'infr': f1.tolist(), 'infr2': f2.tolist(), 'inam2': a2.tolist(), 'edges1': e1.tolist(), 'edges2': e2.tolist(), 'mode': 'energy' if q % 3 else 'amplitude'}
+        lay = ['C', 'F', 'moveaxis', 'strided'][q % 4]
+        w = {'kind': 'holo', 'infr': f1.tolist(), 'infr2': f2.tolist(), 'inam2': a2.tolist(), 'edges1': e1.tolist(), 'edges2': e2.tolist(), 'mode': 'energy' if q % 3 else 'amplitude', 'layout': lay}
         ok, msg = replay(w)
         if ok:
-            emit.violation('each-sample-in-exactly-its-cell', w, msg[:300])
+            emit.violation('each-sample-in-exactly-its-cell' + ('' if lay == 'C' else ':memory-layout'), w, msg[:300])
         if emit.full:
             return
